@@ -266,7 +266,7 @@ EvDec ==
                       K.v = "done" /\ acc.zlib /\ ~BadGeometry(e) /\ d.cout + e.written = K.plen
                         /\ d.cin + e.consumed >= K.endbyte - 4 /\ e.consumed = e.in_len
                       => e.status # "HasMoreOutput")
-     IN /\ Report(fails, 17)
+     IN /\ Report(fails, 18)
         /\ ds' = [ds EXCEPT ![e.obj] = DecNext(d, e, AdlerSeq(d.dig, e.data))]
   /\ l' = l + 1
   /\ Keep(<<acc, cs, ip, cid, dc, ss, cc, seen>>)
@@ -292,6 +292,23 @@ EvGenExpect ==
   /\ Report(Iff("generator_and_acceptor_agree",
                 IF E.expect = "done" THEN acc.ph = "done" /\ acc.endbyte = Len(Rec[cs].z)
                 ELSE acc.ph = "rej" /\ acc.why = E.why), 1)
+  /\ l' = l + 1
+  /\ Keep(<<acc, cs, ip, cid, dc, ds, ss, cc, seen>>)
+
+\* C09: one of the 65536 two-byte zlib headers in front of a valid body, decoded with a flat
+\* buffer and with a ring of each size; the verdict is a function of the header alone
+ZHdrValid(cmf, flg) == /\ cmf % 16 = 8 /\ cmf \div 16 <= 7 /\ (flg \div 32) % 2 = 0 /\ (cmf * 256 + flg) % 31 = 0
+EvZHdr ==
+  /\ Is("zhdr")
+  /\ LET e == E
+         ok == ZHdrValid(e.cmf, e.flg)
+         win == Pow2((e.cmf \div 16) + 8)
+         fails ==
+              Iff("zlib_header_accepted_iff_valid", (e.flat = "Done") = ok /\ (~ok => e.flat = "Failed"))
+           \o Iff("ring_smaller_than_declared_window_refused",
+                  \A i \in 1..Len(e.rings) :
+                     (e.rings[i][2] = "Done") = (ok /\ win <= e.rings[i][1]) /\ e.rings[i][2] \in {"Done", "Failed"})
+     IN Report(fails, 2)
   /\ l' = l + 1
   /\ Keep(<<acc, cs, ip, cid, dc, ds, ss, cc, seen>>)
 
@@ -560,7 +577,7 @@ Known == {"case", "input", "stream", "compressed", "roundtrip", "panic", "hang",
           "comp_new", "comp", "flushpoint", "defl", "defl_end",
           "dnew", "dec", "dec_end", "equiv", "state_same", "vec", "sliceiter", "inf_new", "inf", "inf_end", "equiv_s", "cksum",
           "c_init", "c_call", "c_reset", "c_end", "c_misuse", "c_compress", "c_compressed_valid",
-          "c_uncompress", "c_mem_to_mem", "c_mem_to_heap", "c_bound", "pair", "bb", "bb_end", "note", "gen_expect"}
+          "c_uncompress", "c_mem_to_mem", "c_mem_to_heap", "c_bound", "pair", "bb", "bb_end", "note", "gen_expect", "zhdr"}
 
 \* an event the spec has no action for is itself a failure (never silently skipped)
 EvUnknown ==
@@ -576,7 +593,7 @@ Next == \/ EvCase \/ EvInput \/ EvStream \/ AccRun \/ EvStreamDone
         \/ EvInfNew \/ EvInf \/ EvInfEnd \/ EvEquivS \/ EvCksum
         \/ EvCInit \/ EvCCall \/ EvCReset \/ EvCEnd \/ EvCMisuse \/ EvCCompress \/ EvCCompressedValid
         \/ EvCUncompress \/ EvCMemToMem \/ EvCMemToHeap \/ EvCBound
-        \/ EvPair \/ EvBB \/ EvBBEnd \/ EvNote \/ EvGenExpect
+        \/ EvPair \/ EvBB \/ EvBBEnd \/ EvNote \/ EvGenExpect \/ EvZHdr
         \/ EvUnknown
 
 Spec == Init /\ [][Next]_vars
